@@ -33,11 +33,11 @@ manifest = {
     "engines": [
         {"name": "lean4-proof+correspondence", "path": "/verif/check",
          "serves_properties": [c["property_id"] for c in checks],
-         "kind_free_text": "Lean 4 theorems about a hand-written model of evalexpr (lean/EvalexprVerif), tables re-extracted from /repo/src by translate.py on every run and proved equal to the model's, model tied to the real crate by a differential harness (harness/) speaking a line protocol to the compiled model (lean/Driver.lean)"}
+         "kind_free_text": "Lean 4 theorems about a hand-written model of evalexpr (lean/EvalexprVerif), tables re-extracted from /repo/src by translate.py and the bodies of 238 functions (lexer, tree builder, evaluator, contexts, builtins, entry points) translated Rust->Lean by translate_fn.py on every run and proved equal to the model's (Proofs/Agree*.lean, Proofs/AgreeFn*.lean), model additionally tied to the real crate by a differential harness (harness/) speaking a line protocol to the compiled model (lean/Driver.lean)"}
     ],
     "checks": checks,
     "not_applicable": [{"property_id": pid, "reason": props.get("_pending", {}).get(pid, "not claimed yet: model exists, theorems and correspondence slice for this property are still being built (see DESIGN.md §11)")} for pid in all_ids if pid not in props],
-    "notes": "Every check: translate -> lake build (theorems + generated-table equalities) -> axiom audit -> differential harness -> verdict. See DESIGN.md.",
+    "notes": "Every check: translate (tables + function bodies) -> lake build (property theorems + generated-table equalities + generated-function agreement theorems) -> axiom audit -> differential harness -> verdict. See DESIGN.md (section 0 and 2.5).",
 }
 json.dump(manifest, open(os.path.join(ROOT, "MANIFEST.json"), "w"), indent=1, ensure_ascii=False)
 print("MANIFEST.json:", len(checks), "checks,", len(manifest["not_applicable"]), "not claimed")
